@@ -498,7 +498,10 @@ pub fn run(args: &Args, out: &mut Out) {
         out.bump("generated");
     }
 
-    for (origin, src, expect) in programs {
+    // every template program is also checked in a second layout (line breaks, indentation and comments
+    // between its tokens); multiple_statements is documented to look at lines, its templates keep their layout
+    let mut queue: std::collections::VecDeque<(String, String, String)> = programs.into();
+    while let Some((origin, src, expect)) = queue.pop_front() {
         let ast = match full_moon::parse(&src) {
             Ok(a) => a,
             Err(_) => {
@@ -511,6 +514,13 @@ pub fn run(args: &Args, out: &mut Out) {
         if !supported {
             out.bump("unsupported_syntax");
             continue;
+        }
+        if origin.starts_with("tmpl") && !origin.contains("multiple_statements") && !origin.ends_with(":layout") && !src.contains('\r') && rng.chance(1, 2) {
+            let twin = crate::twin::trivia_twin(&src, &d, &mut rng, out);
+            if twin != src {
+                queue.push_back((format!("{origin}:layout"), twin, "any".to_owned()));
+                out.bump("layout_variant");
+            }
         }
         let toks = list(d.tokens.iter().map(|t| st(&t.4)).collect());
         let mut sv = SepVisitor { starts: Vec::new() };
